@@ -13,6 +13,9 @@ CLAIMED = {
  "C10": dict(engine="W", cat="fault_enumeration", tech="deterministic simulation with fault injection: initial tree states x force-file-write placement x one injected stage fault per run x seeded map-iteration schedules; before/after snapshot oracle against a differential reference run",
    text="Generated multi-file worlds are run by the instrumented CLI from every combination class of initial output-path state (absent, previous generation, user content, directory), force-file-write placed at root/package/interface level, and one stage fault (template retrieval via file:// or the simulated transport, schema validation at package or interface level, template execution, formatting) aimed at one file, each under asc/desc/random iteration orders so the faulted file is reached first, in the middle and last. Snapshot oracle: no path outside the designated outputs changes, an existing path is never replaced without force-file-write (and the run then fails), every designated path holds its complete old state or the complete content of a fault-free reference run, and a faulted file keeps its old state. Fault kinds and initial states are enumerated; worlds and combinations are seeded samples.",
    ref="§4 C10", note="Trusted: 'complete new content' comes from a fault-free reference run of the same binary; write errors/torn writes/crashes inside WriteFile are outside the statement and not injected."),
+ "C12": dict(engine="W", cat="fault_enumeration", tech="deterministic simulation with fault injection: schema/template origins served by a scripted transport and the simulated tree with enumerated retrieval faults, x require flag x data kind x placement level x seeded map-iteration schedules; outcome model from the statement",
+   text="Generated worlds of 1-3 packages choose per package a template (testify, matryer, file://, http://, https://), a schema location (default <template>.schema.json or explicit template-schema), a schema availability (ok or one of 404/500/transport error/truncated/empty/not JSON/missing file, injected by the simulated transport or tree), require-template-schema-exists (unset/true/false) and template-data of a kind (conforming, empty, missing required, extra key, wrong type, lower-level override) placed at root, package, interface config, configs entry or split across two levels; packages may share a template URL while differing in template-schema (cache history depends on iteration order, so each world runs under asc/desc/random). A small outcome model written from the statement marks each output file reject / accept / open; oracle: rejected files are never written and the run fails; with nothing to reject the run succeeds and every file is written. The open combination (require=false, schema retrievable, non-conforming data) is run and counted, not judged.",
+   ref="§4 C12", note="Trusted: the oracle's own evaluator for the flat schema family it generates and for the built-in schemas read from the tree under test; downward merge of flat template-data maps with the lower level winning."),
 }
 NA = {
  "C01": "pure (sources, configuration) -> bytes relation with no schedule, clock, fault or carried state; its only order-dependence residue is decided by C06",
